@@ -21,6 +21,10 @@ theorem wf_run2 : WF run2 where
     intro g hg l hl
     simp only [run2, cfg2, List.mem_cons, List.not_mem_nil, or_false] at hg
     rcases hg with rfl | rfl | rfl <;> simpa [run2] using hl
+  session_nodup := by
+    intro g hg
+    simp only [run2, cfg2, List.mem_cons, List.not_mem_nil, or_false] at hg
+    rcases hg with rfl | rfl | rfl <;> decide
 
 
 theorem policyCfg_some {p : Pol} {m : Int} {ls : List LogInfo} {c : Cfg} (h : policyCfg p m ls = some c) :
